@@ -351,6 +351,10 @@ func (e *ExpressionAtom) Evaluate(dataContext IDataContext, memory *WorkingMemor
 			return reflect.ValueOf(nil), err
 		}
 
+		if e.FunctionCall.FunctionName == "Append" {
+			// Append is the one built-in that changes the fact it is called on: forget what was read from the array
+			memory.Reset(e.ExpressionAtom.GrlText)
+		}
 		if retVal.IsValid() {
 			e.Value = retVal
 		}
